@@ -280,6 +280,12 @@ class QintImp(int, Qtype):
     @classmethod
     def sub(cls, tleft: TExp, tright: TExp) -> TExp:
         """Subtract two Qint"""
+        # Zero-extend both operands to the wider type before complementing
+        if len(tleft[1]) < len(tright[1]):
+            tleft = cast(Qtype, tright[0]).fill(tleft)
+        elif len(tleft[1]) > len(tright[1]):
+            tright = cast(Qtype, tleft[0]).fill(tright)
+
         an = cls.bitwise_not(cls.fill(tleft))
         su = cls.add(an, cls.fill(tright))
         return cls.bitwise_not(su)
